@@ -19,10 +19,7 @@ Helper lemmas and proofs: `RbV/Ref/EditDist.lean`.
 namespace RbV.Thm.C09
 open RbV.EditDist
 
-/-- `d` is the minimum edit distance between `p` and any substring of `t` that ends at position `j` (inclusive) -/
-def IsMinEdAt (w : Nat → Nat → Nat) (p t : List Nat) (j d : Nat) : Prop :=
-  (∀ s, s ≤ j + 1 → d ≤ ed w p ((t.take (j + 1)).drop s)) ∧
-  (∃ s, s ≤ j + 1 ∧ d = ed w p ((t.take (j + 1)).drop s))
+-- `IsMinEdAt w p t j d` (RbV/Ref/EditDist.lean): `d ≤ ed w p t[s..j+1]` for every start `s ≤ j+1`, with equality for one.
 
 /-- the recursion `ed` is the optimum over all alignments: no alignment is cheaper, and one attains it -/
 theorem ed_optimal (w : Nat → Nat → Nat) (p s : List Nat) :
